@@ -156,7 +156,7 @@ def main():
                                evidence_file="evidence/%s.json" % i,
                                replay_cmd_template="python3 tools/check.py %s --replay {path}" % i,
                                engine="lean-model+kvh-harness",
-                               level_claimed=dict(category=c.get("category", "proof"), text=c["text"], design_ref="DESIGN.md section " + c["ref"]),
+                               level_claimed=dict(category=c.get("category", "proof"), text=c["text"], design_ref="DESIGN.md section 3 (" + c["ref"].split()[-1] + ")"),
                                level_note=c["note"], technique=c["technique"]))
         else:
             na.append(dict(property_id=i, reason=PENDING.get(i, "check not built yet in this round (work in progress; no technique switch intended)")))
